@@ -27,6 +27,7 @@ AUDIT = [
     (r"xlsx::offset_cell_name$", r"R-ARITH\|i64", "the offsets are differences of u32 coordinates plus a u32 (|offset| < 2^34), the cell coordinate is a u32: the i64 sum cannot overflow"),
     (r"xlsx::cells_reader::XlsxCellReader::next_formula$", r"R-ARITH\|u32 src32 \+ iter", "i <= end - start, so start + i <= end (a u32)"),
     (r"xlsb::Xlsb::read_workbook::\{closure#0\}$", r"R-INDEX\|index src32 of", "the arm's match guard is `p >= 0 && (p as usize) < sheets.len()`"),
+    (r"ods::get_range$", r"R-INDEX\|\[a\.\.\] unk of local$", "`&empty_cells[col_min..]` (fix d253b15): empty_cells has col_max + 1 entries and col_min <= col_max, both being positions of non-empty cells (position <= rposition of the same row) in rows that exist because row_min is Some"),
     (r"ods::get_range$", r"R-INDEX", "cols[] holds prefix lengths of `cells` (pushed by read_table after every row, monotone, last == cells.len()); col_min / col_max are positions of non-empty cells inside the rows that reach these slices (empty rows `continue` first); the Less/Equal/Greater arms compare row.len() with col_max + 1"),
     (r"ods::get_range$", r"R-ALLOC", "cells_len and col_max + 1 are extents of vectors already materialised from the input (indices, not repeat counts)"),
 ]
@@ -48,6 +49,7 @@ MANUAL_DEMO = {
 # sites that appeared after the triage run (e.g. through a fix: commit that follows the surrounding unchecked style):
 # fn -> [(key, demonstration)]
 LATER = {
+    "ods::get_range": [("ods::get_range|R-INDEX|[a..] unk of local", "audited")],
     "xlsb::parse_formula": [
         ("xlsb::parse_formula|R-INDEX|[..b] 2 of sub(sub(arg1))", "kf_c06_xlsb_formula_tokens_truncated: token 0x19 0x04 followed by 0 or 1 payload bytes panics at the cOffset read (fix 5cb8b00 reads it as unchecked as its neighbours)"),
         ("xlsb::parse_formula|R-INDEX|[a..] 2*src16+4 of sub(sub(arg1))", "kf_c06_xlsb_formula_tokens_truncated: token 0x19 0x04 with cOffset 0x0505 and no jump table panics at the skip"),
